@@ -84,6 +84,7 @@ def run(ctx):
     d2 = X.depth2_family(ctx)
     cfg2 = [(2, BN128, E.D(2)), (3, BN128, E.D(2))] if ctx.thorough else [(3, BN128, E.D(2))]
     extras += e1.sweep(ctx, d2, cfg2, "pv.checks.c05.oracle", modes=MODES)
+    X.long_run(ctx, "wrong")
     e1.bfs_sweep(ctx, {"wrong-value", "wrong-value-congruent-mod-p", "same-state-different-future"}, ctx.thorough)
     e1.dedupe_violations(ctx)
     ctx.cov["ill_typed_programs_skipped"] = sorted({nm for nm, ex in extras if ex.get("ill_typed")})
